@@ -999,8 +999,9 @@ def case_sampleset(ctx, r, B):
         B.add(line, f'{target} {rows_tok(got_rows)} {rats(nss.record.energy)}', site, ic, 'SampleSet.change_vartype vs model', detail=dict(script=src))
 
 
-def case_from_dicts(ctx, r):
-    """BQM.from_ising / from_qubo (constructors) and to_ising / to_qubo incl. offsets, energies at every sample"""
+def case_from_dicts(ctx, r, B):
+    """BQM.from_ising / from_qubo (constructors) and to_ising / to_qubo incl. offsets, energies at every sample;
+    the constructed model is compared with `LBqm.fromIsing` / `LBqm.fromQubo` (`_init_components` as modelled)"""
     n = r.choice([1, 2, 3, 4])
     labels = r.sample(LABELS, n)
     h = {l: q8(r) for l in labels if r.random() < .8}
@@ -1010,7 +1011,15 @@ def case_from_dicts(ctx, r):
             u, v = r.sample(labels, 2)
             if (u, v) not in J:
                 J[(u, v)] = q8(r)     # (u, v) and (v, u) may both occur: their biases add up
+    for l in labels:
+        if r.random() < .3:
+            J[(l, l)] = q8(r)         # diagonal entry: offset (SPIN) / linear bias (BINARY)
+    if J and r.random() < .3:
+        items = list(J.items())
+        r.shuffle(items)
+        J = dict(items)
     off = q8(r)
+    jtok = ','.join(f'{lab(a)}~{lab(b)}={rat(F(v))}' for (a, b), v in J.items()) or '-'
     hdr = 'import dimod, itertools\nfrom fractions import Fraction\nF = lambda x: Fraction(float(x))\n'
     which = r.choice(['from_ising', 'from_qubo'])
     site = 'BQM.' + which
@@ -1021,6 +1030,9 @@ def case_from_dicts(ctx, r):
         src = hdr + f'h, J, off = {h!r}, {J!r}, {off!r}\nm = dimod.BQM.from_ising(h, J, off)\nh2, J2, off2 = m.to_ising()\nQ, qoff = m.to_qubo()\n'
         h2, J2, off2 = m.to_ising()
         Q, qoff = m.to_qubo()
+        htok = ','.join(f'{lab(k)}={rat(F(v))}' for k, v in h.items()) or '-'
+        B.add(f'fromising {htok} {jtok} {rat(F(off))}', state_line(m), site, 'from_ising with diagonal / reversed keys' if any(a == b or (b, a) in J for a, b in J) else 'from_ising',
+              'constructed model vs LBqm.fromIsing', detail=dict(repro=src + 'print(m)\n'))
         for s in all_samples(labels, 'SPIN'):
             e = F(off) + sum(F(b) * s[v] for v, b in h.items()) + sum(F(b) * s[u] * s[v] for (u, v), b in J.items())
             x = {v: (a + 1) // 2 for v, a in s.items()}
@@ -1037,6 +1049,9 @@ def case_from_dicts(ctx, r):
         Q = {(v, v): b for v, b in h.items()}
         Q.update(J)
         m = BQM.from_qubo(Q, off)
+        qtok = ','.join(f'{lab(a)}~{lab(b)}={rat(F(v))}' for (a, b), v in Q.items()) or '-'
+        B.add(f'fromqubo {qtok} {rat(F(off))}', state_line(m), site, 'from_qubo with diagonal / reversed keys' if any(a == b or (b, a) in Q for a, b in Q) else 'from_qubo',
+              'constructed model vs LBqm.fromQubo', detail=dict(repro=hdr + f'Q, off = {Q!r}, {off!r}\nm = dimod.BQM.from_qubo(Q, off)\nprint(m)\n'))
         src = hdr + f'Q, off = {Q!r}, {off!r}\nm = dimod.BQM.from_qubo(Q, off)\nh2, J2, off2 = m.to_ising()\nQ2, qoff = m.to_qubo()\n'
         h2, J2, off2 = m.to_ising()
         Q2, qoff = m.to_qubo()
@@ -1079,7 +1094,7 @@ def run(ctx):
         elif kind == 'dicts':
             case_ising_qubo(ctx, r, B)
         elif kind == 'fromdicts':
-            case_from_dicts(ctx, r)
+            case_from_dicts(ctx, r, B)
         else:
             case_sampleset(ctx, r, B)
         if len([f for f in ctx.failures if f['kind'] == 'property']) >= 12:
